@@ -1,0 +1,7 @@
+//go:build !verif
+
+package pathbadger
+
+// verifCrashPoint marks a boundary between successive durable writes; it does nothing unless
+// the package is built with the verif tag (see crashpoint_verif.go).
+func verifCrashPoint(string) {}
